@@ -91,6 +91,11 @@ func selfTest(ctx *core.Ctx) error {
 		e := &r.Exits[len(r.Exits)-2]
 		e.SK, e.SV = e.SK[:len(e.SK)-1], e.SV[:len(e.SV)-1]
 	})
+	add("the outer All() drops a leaf while a nested Lookup is made", "Reentrant", good, func(r *record) {
+		r.Nest.OK, r.Nest.OV = append(r.Nest.OK[:64:64], r.Nest.OK[128:]...), append(r.Nest.OV[:64:64], r.Nest.OV[128:]...)
+	})
+	add("a nested Lookup on the in-memory reader misses a present key", "ReentrantInMemory", good, func(r *record) { r.MNest.LA[0] = -1 })
+	add("a nested All() starts in the wrong place", "Reentrant", obNum.Rec, func(r *record) { r.Nest.AK[3] = r.Nest.AK[4] })
 	add("Size is off by one", "Size", good, func(r *record) { r.Size++ })
 	add("a kid is referenced twice", "Valid", good, func(r *record) {
 		for i := range r.Nodes {
@@ -163,7 +168,7 @@ func selfTest(ctx *core.Ctx) error {
 
 	// (ii) the seeded defects must violate the design model
 	for v, want := range map[string]string{"limitsMaxOff": "Valid", "limitsMinOff": "Valid", "lookupStrict": "Faithful", "collapseAll": "Valid",
-		"yieldBreak": "EarlyExit", "leafBufReuse": "Valid"} {
+		"yieldBreak": "EarlyExit", "leafBufReuse": "Valid", "sharedSeen": "Reentrant"} {
 		res, err := ctx.TLC(core.TLCOpts{Dir: "tree", Module: "MC_KeyTree", Cfg: "MC_KeyTree_neg_" + v + ".cfg", Workers: 4, Mode: "negative-control"})
 		if err != nil {
 			return err
@@ -179,7 +184,14 @@ func selfTest(ctx *core.Ctx) error {
 	if res.Invariant != "MemEnumerates" && res.Invariant != "MemWrite" {
 		return core.Infra("self-test: variant cachedKeys should violate MemEnumerates/MemWrite, got %q", res.Invariant)
 	}
-	ctx.Logf("self-test (ii): the six seeded defects (limits max/min off by one, strict lookup comparison, collapse without grouping, lost stop signal in All, shared leaf buffer with queued Puts) and the kept key slice of the in-memory value violate the models")
+	res, err = ctx.TLC(core.TLCOpts{Dir: "tree", Module: "KeyTreeMem", Cfg: "MC_KeyTreeMem_neg_nullMeansAbsent.cfg", Workers: 4, Mode: "negative-control"})
+	if err != nil {
+		return err
+	}
+	if res.Invariant != "MemLookup" {
+		return core.Infra("self-test: variant nullMeansAbsent should violate MemLookup, got %q", res.Invariant)
+	}
+	ctx.Logf("self-test (ii): the seven seeded defects of the tree model (limits max/min off by one, strict lookup comparison, collapse without grouping, lost stop signal in All, shared leaf buffer with queued Puts, one cycle-guard set for overlapping walks) and the two of the in-memory value (kept key slice, null value taken for absent) violate the models")
 
 	// (iii) a wrong table line must be noticed
 	if checkTable(genCase{N: 129, Accept: false}, ob) == "" || checkTable(genCase{N: 128, Accept: true}, ob) == "" ||
